@@ -12,8 +12,17 @@ import (
 func init() {
 	FlagUseASM = cpu.CPU.Supports(cpu.AVX, cpu.AVX2, cpu.SSE, cpu.SSE2, cpu.SSE4)
 	if FlagUseASM {
-		ForwardDCT256 = asmForwardDCT256
-		ForwardDCT64 = asmForwardDCT64
+		// The kernels transform 256 resp. 64 values whatever the slice length says:
+		// refuse a shorter argument the way the portable kernels do (index out of range)
+		// instead of reading and writing behind it.
+		ForwardDCT256 = func(input []float32) {
+			_ = input[255]
+			asmForwardDCT256(input)
+		}
+		ForwardDCT64 = func(input []float32) {
+			_ = input[63]
+			asmForwardDCT64(input)
+		}
 		YCbCrToGray = AsmYCbCrToGray
 	}
 }
